@@ -18,6 +18,9 @@ void p_list_foreach (PList *list, PFunc func, ppointer user_data) { (void) user_
 #ifndef TEMPLATE
 #define TEMPLATE 0
 #endif
+#ifndef GETTER
+#define GETTER 0
+#endif
 
 /* ---- p_strchomp against its specification, every string of length <= M */
 void h_strchomp (void)
@@ -151,4 +154,30 @@ void h_getters_words (void)
 		CANARY ("list");
 	}
 	OBL (p_ini_file_parameter_boolean (f, "s", "zz", TRUE) == TRUE && p_ini_file_parameter_int (f, "x", "k", 42) == 42 && p_ini_file_parameter_list (f, "s", "zz") == NULL, "missing key or section: the default");
+}
+
+/* ---- C18/C20: the allocating getters with every allocation allowed to fail, on a fixed parsed object
+ * ([s] k = {a b}): whatever fails, the result is usable (NULL or a list/string), and once the caller has released the
+ * result nothing that the getter allocated remains. */
+static void free_str_list (PList *l) { for (PList *c = l; c != NULL; c = c->next) p_free (c->data); p_list_free (l); }
+void h_getters_allocfail (void)
+{
+	g_alloc_may_fail = 0;
+	PIniFile *f = malloc (sizeof (PIniFile)); PIniSection *sec = malloc (sizeof (PIniSection)); PIniParameter *p1 = malloc (sizeof (PIniParameter));
+	PList *ls = malloc (sizeof (PList)), *k1 = malloc (sizeof (PList));
+	__CPROVER_assume (f && sec && p1 && ls && k1);
+	f->path = NULL; f->is_parsed = TRUE; f->sections = ls; ls->data = sec; ls->next = NULL; sec->name = "s"; sec->keys = k1; k1->data = p1; k1->next = NULL; p1->name = "k";
+	p1->value = "{a b}";
+	g_alloc_may_fail = 1; g_alloc_failed = 0; g_allocs = g_frees = 0;
+#if GETTER == 0
+	PList *l = p_ini_file_sections (f); if (l != NULL) CANARY ("listed"); free_str_list (l);
+#elif GETTER == 1
+	PList *l = p_ini_file_keys (f, "s"); if (l != NULL) CANARY ("listed"); free_str_list (l);
+#elif GETTER == 2
+	pchar *r = p_ini_file_parameter_string (f, "s", "k", NULL); if (r != NULL) CANARY ("string copied"); p_free (r);
+#else
+	PList *l = p_ini_file_parameter_list (f, "s", "k"); if (list_len (l) == 2) CANARY ("two items"); free_str_list (l);
+#endif
+	OBL (g_allocs == g_frees, "C18/C20 getter: whichever allocation failed, nothing the getter allocated remains once its result is released");
+	if (g_alloc_failed) CANARY ("an allocation failed");
 }
